@@ -82,6 +82,11 @@ func genC07(g *Gen, tier string, idx int) *wire.Scenario {
 		km = "vi-insert"
 		inInsert := true
 		for i := 0; i < n; i++ {
+			if inInsert && g.P(10) && len(env.History[0].Entries) > 0 {
+				// the arrow keys of vi insert mode: up/down-line-or-search (a prefix search from the first/last line)
+				sc.Script = append(sc.Script, tok(Pick(g, []string{"\x1b[A", "\x1b[A", "\x1b[B"}), "history-search-walk"))
+				continue
+			}
 			if inInsert {
 				switch g.N(6) {
 				case 0:
@@ -248,6 +253,38 @@ func execC07(x *Ctx, sc *wire.Scenario) *wire.Result {
 			continue
 		}
 		cmd := t.Cmd
+		if cmd == "history-search-walk" {
+			// which line this lands on depends on the text before the cursor: the line shown says it
+			walked = true
+			b = blk{}
+			consecutiveUndos = 0
+			if after.Line == before.Line {
+				continue
+			}
+			found := -2
+			for id := 0; id < n; id++ {
+				if entries[n-1-id] == after.Line {
+					if found != -2 {
+						found = -3 // two equal entries
+					}
+					if found == -2 {
+						found = id
+					}
+				}
+			}
+			if found >= 0 && !member(-1, after.Line) {
+				ident = found
+				if _, ok := seen[ident]; !ok {
+					seen[ident] = []string{initial(ident)}
+					depth[ident] = 1
+				}
+			} else if member(-1, after.Line) && found < 0 {
+				ident = -1
+			} else {
+				identKnown = false
+			}
+			continue
+		}
 		if strings.HasPrefix(cmd, "history-jump:") {
 			if n > 0 {
 				if strings.HasSuffix(cmd, "beginning-of-history") {
